@@ -1,6 +1,7 @@
 import XlModel.Lemmas.Save3
 import XlModel.Lemmas.SaveWriters
 import XlModel.Lemmas.SaveCols
+import XlModel.Lemmas.SaveCols3
 import XlModel.Lemmas.Grid4
 import XlModel.Generated.FactsC01
 /-!
@@ -321,6 +322,40 @@ theorem finding_overlapping_merges_normalised :
     let ms : List Grid.MObj := [⟨⟨4, 3, 4, 4⟩, ⟨4, 3, 4, 4⟩⟩, ⟨⟨3, 2, 4, 3⟩, ⟨3, 2, 4, 3⟩⟩]
     Grid.mergeOverlapCells ms ≠ ms ∧ (Grid.mergeOverlapCells ms).map (·.ref) = [⟨3, 2, 4, 4⟩] := by
   decide
+
+/-- (repeatable, merged ranges — for EVERY merge list, overlapping ranges included) the second save is
+the identity on the merge list: what `mergeOverlapCells` leaves is pairwise disjoint under the very
+interval test it uses, so running it again changes nothing — same entries, same order, same `Ref`.
+The open finding above is therefore confined to the *first* save after an overlapping `MergeCell`. -/
+theorem save_merges_idempotent (ms : List Grid.MObj) :
+    Grid.mergeOverlapCells (Grid.mergeOverlapCells ms) = Grid.mergeOverlapCells ms := by
+  have hd : Grid.DisjB ([] ++ Grid.mergeOverlapCells ms) := by
+    simpa using Grid.mergeOverlap_disj ms
+  simpa [Grid.mergeOverlapCells] using Grid.mergeOverlap_id_aux (Grid.mergeOverlapCells ms) [] hd
+
+/-- (repeatable, merged ranges, any number of saves) `n + 1` consecutive saves leave the merge list one
+save leaves, for every merge list -/
+theorem save_merges_repeatable (n : Nat) (ms : List Grid.MObj) :
+    Nat.repeat Grid.mergeOverlapCells (n + 1) ms = Grid.mergeOverlapCells ms := by
+  induction n with
+  | zero => rfl
+  | succ n ih =>
+    show Grid.mergeOverlapCells (Nat.repeat Grid.mergeOverlapCells (n + 1) ms) = _
+    rw [ih, save_merges_idempotent]
+
+/-- (repeatable, column definitions, any number of saves) for every `<cols>` list the column setters can
+leave (`SaveCols.Wf`: well-formed, pairwise non-overlapping ranges in ANY order — `flatCols` appends, so
+the list is not sorted; `save_cols_pure` covers the sorted flat case only) and every `n`: after `n`
+consecutive saves every column still resolves to the attributes it had before the first one, and the
+list is well-formed again (so the setters that follow start from the state the theorem assumes). -/
+theorem save_cols_repeatable (n : Nat) (l : List SaveCols.Col) (h : SaveCols.Wf l) :
+    (∀ c, SaveCols.look (Nat.repeat SaveCols.mergeCols n l) c = SaveCols.look l c)
+    ∧ SaveCols.Wf (Nat.repeat SaveCols.mergeCols n l) := by
+  induction n with
+  | zero => exact ⟨fun _ => rfl, h⟩
+  | succ n ih =>
+    have h1 := SaveCols.mergeCols_wf (Nat.repeat SaveCols.mergeCols n l) ih.2
+    exact ⟨fun c => (h1.1 c).trans (ih.1 c), h1.2⟩
 
 /-! ## the other part writers: a writer must not consume what it renders from -/
 
